@@ -980,6 +980,12 @@ where
                     ..
                 }) = self.ports.get_mut(&port)
                 {
+                    // Port messages without ports use no flow credits and thus would allow
+                    // the remote endpoint to fill the receive queue without limit.
+                    if ports.is_empty() {
+                        return Err(protocol_err(format!("received port data without ports on port {}", &port)));
+                    }
+
                     for port in &ports {
                         if !self.outstanding_remote_port_requests.insert(*port) {
                             return Err(protocol_err(format!(
